@@ -182,11 +182,69 @@ func cmdSelfcheck(argv []string) int {
 			}
 		}
 	}
-	fmt.Printf("selfcheck: %d library observations compared (native vs engine), mismatches=%d inconclusive=%d; regexp intrinsic mismatches=%d; %.1fs\n", len(cfgs), bad, inc, rxBad, time.Since(t0).Seconds())
-	if bad > 0 || rxBad > 0 {
+	stdBad := selfcheckStd(p)
+	fmt.Printf("selfcheck: %d library observations compared (native vs engine), mismatches=%d inconclusive=%d; regexp intrinsic mismatches=%d; std lemma failures=%d; %.1fs\n", len(cfgs), bad, inc, rxBad, stdBad, time.Since(t0).Seconds())
+	if bad > 0 || rxBad > 0 || stdBad > 0 {
 		return 1
 	}
 	return 0
+}
+
+// selfcheckStd: symbolic lemmas about library functions the engine runs from source or through
+// an intrinsic (harness VXStd*): each lemma must hold for every string of its template, and its
+// negated twin must be reported (otherwise the lemma would hold vacuously).
+func selfcheckStd(p *Program) int {
+	A := func(n int) string { return strings.Repeat("{A}", n) }
+	type lemma struct {
+		fn   string
+		args []ArgSpec
+	}
+	var ls []lemma
+	for _, n := range [][2]int{{1, 1}, {2, 2}, {2, 1}, {3, 3}} {
+		ls = append(ls, lemma{"VXStdFold", []ArgSpec{ArgTmpl(A(n[0])), ArgTmpl(A(n[1]))}})
+	}
+	for _, n := range [][2]int{{3, 1}, {3, 2}, {2, 3}, {4, 0}} {
+		ls = append(ls, lemma{"VXStdStrings", []ArgSpec{ArgTmpl(A(n[0])), ArgTmpl(A(n[1]))}})
+	}
+	for _, t := range []string{"{[0-9+\\-a_]}{[0-9a_]}{d}", "{d}{d}{d}{d}", "{[+\\-]}", ""} {
+		ls = append(ls, lemma{"VXStdAtoi", []ArgSpec{ArgTmpl(t)}})
+	}
+	in := NewInterp(p)
+	sv, err := NewSolver("z3-new", in.tb, 20000)
+	if err != nil {
+		fmt.Fprintln(os.Stderr, "selfcheck std:", err)
+		return 1
+	}
+	in.solver = sv
+	defer sv.Close()
+	bad := 0
+	for _, l := range ls {
+		for _, flip := range []bool{false, true} {
+			cfg := &Config{ID: fmt.Sprintf("self/std/%s/%v/%v", l.fn, l.args, flip), Pkg: zzhPkg, Func: l.fn, Args: append(append([]ArgSpec{}, l.args...), ArgBool(flip))}
+			var r *Result
+			func() {
+				defer func() {
+					if e := recover(); e != nil {
+						r = &Result{Config: cfg, Inconcl: []Inconclusive{{cfg.ID, fmt.Sprintf("engine error: %v", e)}}}
+					}
+				}()
+				r = in.RunConfig(cfg, 20000, time.Now().Add(120*time.Second))
+			}()
+			switch {
+			case len(r.Inconcl) > 0:
+				bad++
+				fmt.Printf("SELFCHECK-STD inconclusive %s: %s\n", cfg.ID, r.Inconcl[0].Reason)
+			case !flip && len(r.Violations) > 0:
+				bad++
+				fmt.Printf("SELFCHECK-STD lemma fails %s: %v\n", cfg.ID, r.Violations[0].Args)
+			case flip && len(r.Violations) == 0:
+				bad++
+				fmt.Printf("SELFCHECK-STD negated twin not reported (vacuous lemma) %s\n", cfg.ID)
+			}
+		}
+	}
+	fmt.Printf("selfcheck: %d symbolic library lemmas (EqualFold from source with bitwise terms, strings/strconv intrinsics), each with a negated twin\n", len(ls))
+	return bad
 }
 
 // selfcheckRegexp compares the symbolic matcher (on concrete input) with the real regexp package
